@@ -111,7 +111,11 @@ func (n *memoryStoreNode) findNewest() *memoryStoreNode {
 	known := n
 	for _, child := range n.children {
 		cl := child.findNewest()
-		if cl.version > known.version {
+		if cl.wire == nil {
+			continue // nothing stored in this subtree
+		}
+		// any stored packet beats "nothing found yet", also one of version 0
+		if known.wire == nil || cl.version > known.version {
 			known = cl
 		}
 	}
